@@ -18,7 +18,7 @@ contract(E + "ErrorExtraction.get_fields_for_exception", props=["C03", "C07"], c
          modifies=LOGGING_FRAME, ghosts={"R": "seqe"},
          ensures=LOGGING_EFFECT + [
              ("only-reports-logged", "LOG == old(LOG) + R and all_reports(R)", ["C03"]),
-             ("result-is-private", "forall(lambda a: box(result) != a._identification and box(result) != a._successFields, 'ref:obj')"),
+             ("result-is-a-fresh-dict", "fresh(result)", ["C03"]),
              ("result-is-extractor-output-or-empty",
               "(LASTF == old(LASTF) and NTOP == old(NTOP) and dom(result) == setof()) or "
               "(last(CALLS).tag == 'ret' and box(result) == last(CALLS).d and LASTARGS == [exception]) or "
